@@ -177,14 +177,17 @@ def build_unit(unit, overlay=None):
         if r.returncode != 0:
             raise RuntimeError("link failed for %s:\n%s" % (unit["name"], r.stderr[-6000:]))
         os.replace(tmp, binp)
-        # remove older binaries of the same unit+tag
+        # keep the 6 most recent binaries of the same unit+tag (concurrent builds with other overlays may be using theirs)
         pref = "%s-%s-" % (unit["name"], tag)
-        for f in os.listdir(bindir):
-            if f.startswith(pref) and os.path.join(bindir, f) != binp and ".tmp" not in f:
-                try:
-                    os.remove(os.path.join(bindir, f))
-                except OSError:
-                    pass
+        olds = sorted((os.path.getmtime(os.path.join(bindir, f)), f) for f in os.listdir(bindir)
+                      if f.startswith(pref) and ".tmp" not in f and os.path.join(bindir, f) != binp)
+        for _, f in olds[:-5]:
+            try:
+                os.remove(os.path.join(bindir, f))
+            except OSError:
+                pass
+    else:
+        os.utime(binp, None)
     prune_cache()
     return binp
 
